@@ -1,7 +1,6 @@
 package checks
 
 import (
-	"encoding/hex"
 	"fmt"
 	"sort"
 
@@ -98,8 +97,9 @@ func c08After(w *World, path []fsx.Op, r fsx.Reply, implFail bool, mis *reffs.Mi
 		return
 	}
 	for _, fh := range live {
-		b, _ := hex.DecodeString(fh)
-		_ = b
+		if w.SkipLive[fh] {
+			continue // (prepared state with tens of thousands of files: the kept ones and every later one are probed)
+		}
 		for _, p := range c08Probes("raw:" + fh) {
 			if p.K == "SETATTR" && !p.NoSize {
 				continue // size changes are C02's business; keep the objects intact for the later probes
@@ -117,6 +117,15 @@ func c08After(w *World, path []fsx.Op, r fsx.Reply, implFail bool, mis *reffs.Mi
 }
 
 // directories replacing directories: link counts of parents decide whether a removed parent's handle dies
+func c08InodeAlphabet() []fsx.Op {
+	return []fsx.Op{
+		{K: "REMOVE", H: "root/bulk", N: "f00000"}, {K: "REMOVE", H: "root/bulk", N: "f16000"}, {K: "REMOVE", H: "root/bulk", N: "f32700"},
+		{K: "CREATE", H: "root", N: "n1"}, {K: "MKDIR", H: "root", N: "n2"}, {K: "SYMLINK", H: "root/d", N: "n3", Target: "t"},
+		{K: "CREATE", H: "root/bulk", N: "f00000"}, {K: "REMOVE", H: "root", N: "n1"}, {K: "RMDIR", H: "root", N: "n2"},
+		{K: "RESTART"},
+	}
+}
+
 func c08DirAlphabet() []fsx.Op {
 	return []fsx.Op{
 		{K: "RENAME", H: "root/d", N: "e", H2: "root/d", N2: "f"}, // directory over an empty directory, same parent
@@ -131,6 +140,14 @@ func init() {
 	RegisterSeq("c08.dirs", &SeqSpec{Prop: "C08", DiskSize: 3000, Alphabet: c08DirAlphabet(), After: c08After, Strict: true,
 		Setup: []fsx.Op{{K: "MKDIR", H: "root", N: "d"}, {K: "MKDIR", H: "root/d", N: "e"}, {K: "MKDIR", H: "root/d", N: "f"}, {K: "MKDIR", H: "root", N: "g"}}})
 	Checks["C08"] = C08
+	// the inode table exhausted (32765 files in one directory): numbers can only come from removals, the allocator
+	// wraps around, and a request that needs an inode when there is none must fail without a trace
+	prepSpecs["inofull"] = &PrepSpec{Disk: 4000, Ops: []fsx.Op{{K: "CREATE", H: "root", N: "a"}, {K: "MKDIR", H: "root", N: "d"},
+		{K: "WRITE", H: "root/a", Off: 0, Cnt: 5000, Pat: 0x11, Stable: 2}, {K: "CREATE", H: "root/d", N: "x"},
+		{K: "MKDIR", H: "root", N: "bulk"}, {K: "INOFILL", H: "root/bulk", N: "f"},
+		{K: "LOOKUP", H: "root/bulk", N: "f00000", As: "root/bulk/f00000"}, {K: "LOOKUP", H: "root/bulk", N: "f16000", As: "root/bulk/f16000"}, {K: "LOOKUP", H: "root/bulk", N: "f32700", As: "root/bulk/f32700"}},
+		Keep: []string{"root", "root/a", "root/d", "root/d/x", "root/bulk", "root/bulk/f00000", "root/bulk/f16000", "root/bulk/f32700"}}
+	RegisterSeq("c08.inodes", &SeqSpec{Prop: "C08", Prep: "inofull", Alphabet: c08InodeAlphabet(), After: c08After, Strict: true, AllowImplFail: true})
 	RegisterSeq("c08.seq", &SeqSpec{Prop: "C08", DiskSize: 3000, Alphabet: c08Alphabet(), After: c08After, Strict: true})
 }
 
@@ -139,8 +156,13 @@ func C08(r *report.Report, tier string) {
 	if tier == "thorough" {
 		depth = 7
 	}
-	r.Rule = fmt.Sprintf("breadth-first search to depth %d over create/remove/rename-over/restart/crash-restart cycles (%d symbols; every restart resets the next-fit allocator so that inode numbers are reused at once); in every state every handle ever issued is used in every procedure and handle position (GETATTR, SETATTR, LOOKUP, ACCESS, READLINK, READ, WRITE, CREATE, MKDIR, SYMLINK, REMOVE, RMDIR, RENAME source dir / target dir / both, READDIR, READDIRPLUS, COMMIT, FSINFO, PATHCONF): a dead handle must answer STALE/BADHANDLE and change nothing, a live handle must denote the bound object; every new handle must differ from every handle ever issued; a second search from a tree of nested empty directories over directory-over-directory renames and RMDIRs (parents' link counts)", depth, len(c08Alphabet()))
+	idepth := 2
+	if tier == "thorough" {
+		idepth = 4
+	}
+	r.Rule = fmt.Sprintf("breadth-first search to depth %d over create/remove/rename-over/restart/crash-restart cycles (%d symbols; every restart resets the next-fit allocator so that inode numbers are reused at once); in every state every handle ever issued is used in every procedure and handle position (GETATTR, SETATTR, LOOKUP, ACCESS, READLINK, READ, WRITE, CREATE, MKDIR, SYMLINK, REMOVE, RMDIR, RENAME source dir / target dir / both, READDIR, READDIRPLUS, COMMIT, FSINFO, PATHCONF): a dead handle must answer STALE/BADHANDLE and change nothing, a live handle must denote the bound object; every new handle must differ from every handle ever issued; a second search from a tree of nested empty directories over directory-over-directory renames and RMDIRs (parents' link counts); a third search (depth %d) from the state with the inode table exhausted - 32765 files, built through the API - over removals of the lowest / a middle / a high inode, creations of every kind, re-creation of a removed name and restarts: inode numbers can only come from removals and the next-fit allocator wraps around", depth, len(c08Alphabet()), idepth)
 	s1 := RunSeq(r, "c08.seq", depth)
 	s2 := RunSeq(r, "c08.dirs", depth-1)
-	r.Extra["searches"] = []*SeqSummary{s1, s2}
+	s3 := RunSeq(r, "c08.inodes", idepth)
+	r.Extra["searches"] = []*SeqSummary{s1, s2, s3}
 }
